@@ -13,9 +13,9 @@ from .wire import Reply, Renderer, parse_command, parse_string_line, OK, ERROR, 
 
 
 # fault kinds (value 0 = none)
-F_NONE, F_NO, F_BYE, F_SILENT, F_CLOSE, F_LOST_SILENT, F_LOST_CLOSE, F_TRUNC, F_RESET, F_LOST_RESET = range(10)
+F_NONE, F_NO, F_BYE, F_SILENT, F_CLOSE, F_LOST_SILENT, F_LOST_CLOSE, F_TRUNC, F_RESET, F_LOST_RESET, F_DELAYED = range(11)
 FAULT_NAMES = ("none", "NO", "BYE", "silence", "close", "applied+silence",
-               "applied+close", "truncated-reply+close", "reset", "applied+reset")
+               "applied+close", "truncated-reply+close", "reset", "applied+reset", "applied+reply-later-than-the-read-timeout")
 
 TEXT_POOL = [
     b"done", b"", b"quota exceeded", b'say "hi"', b"back\\slash", b'\\"', b"(NOTACODE) x",
@@ -118,6 +118,9 @@ class SimServer:
         self.oauth_challenge_on_fail = False
         self.inject_after_starttls = False
         self.cap_variation = False     # case of capability names and order of capability lines are drawn
+        self.digest_final_in_ok = False   # DIGEST-MD5: rspauth in OK (SASL "...") instead of an extra challenge
+        self.no_with_sasl_code = False    # a forced NO of the verdict still carries the final SASL data
+        self.bye_with_referral = False    # forced BYEs carry (REFERRAL "sieve://other.example")
         self.self_check = True
         self.fault_counts = {}
         self.shape_counts = {}
@@ -306,7 +309,8 @@ class SimServer:
             return
         self.fault_counts["caps:" + kind] = self.fault_counts.get("caps:" + kind, 0) + 1
         if kind == "bye":
-            self._reply(conn, rec, scope, b"BYE", (), (b"TRYLATER", None), b"overloaded")
+            self._reply(conn, rec, scope, b"BYE", (), (b"REFERRAL", b"sieve://other.example") if self.bye_with_referral else (b"TRYLATER", None),
+                        b"overloaded")
         elif kind == "no":
             self._reply(conn, rec, scope, b"NO", (), None, b"go away")
         elif kind == "silent":
@@ -430,7 +434,8 @@ class SimServer:
             rec.after = self.snapshot()
             return
         if fault == F_BYE:
-            self._reply(conn, rec, scope, b"BYE", (), None, b"shutting down")
+            self._reply(conn, rec, scope, b"BYE", (), (b"REFERRAL", b"sieve://other.example") if self.bye_with_referral else None,
+                        b"shutting down")
             rec.after = self.snapshot()
             return
         if fault == F_SILENT:
@@ -463,6 +468,12 @@ class SimServer:
             handler(conn, dec, rec, scope)
         rec.after = self.snapshot()
 
+        if fault == F_DELAYED:
+            # the command is applied and answered, but the answer takes longer than the client's read timeout: the
+            # connection stays usable and the late reply is still in the stream afterwards
+            for sg in conn.segments[seg_before:]:
+                sg.delay = 1
+            rec.note = "reply delayed"
         if fault in (F_LOST_SILENT, F_LOST_CLOSE, F_TRUNC, F_LOST_RESET):
             # the command was applied; withdraw (part of) the reply
             segs = conn.segments[seg_before:]
@@ -917,6 +928,12 @@ class SimServer:
                 cfg.nonce.encode(), d.get("cnonce", "").encode("utf-8"), b"00000001", b"auth",
                 d.get("digest-uri", "").encode("utf-8"),
                 d["authzid"].encode("utf-8") if d.get("authzid") else None, check=True)
+            sasl["final_code"] = (b"SASL", base64.b64encode(b"rspauth=" + rsp))
+            if self.digest_final_in_ok:
+                # RFC 5804 2.1: the final server data travels in the SASL response code of the completion response
+                sasl["user"] = login
+                self._sasl_finish(conn, True, b"authenticated")
+                return
             sasl["rspauth_sent"] = True
             sasl["user"] = login
             sasl["stage"] += 1
@@ -943,15 +960,22 @@ class SimServer:
             if k == F_NO:
                 ok = False
                 text = b"try later"
+                if self.no_with_sasl_code and sasl.get("final_code"):
+                    # e.g. right password on a disabled account: a refusal that still carries valid final SASL data
+                    seen["accepted"] = False
+                    self._reply(conn, rec, scope, b"NO", (), sasl["final_code"], b"account disabled")
+                    return
             elif k == F_BYE:
                 seen["accepted"] = False
-                self._reply(conn, rec, scope, b"BYE", (), None, b"shutting down")
+                code = (b"REFERRAL", b"sieve://other.example") if self.bye_with_referral else None
+                self._reply(conn, rec, scope, b"BYE", (), code, b"shutting down")
                 return
         seen["accepted"] = ok
         if ok:
             st.user = sasl.get("user")
             st.auth_ok_count += 1
             rec.applied = True
-            self._reply(conn, rec, scope, b"OK", (), None, text)
+            code = sasl.get("final_code") if (self.digest_final_in_ok and not sasl.get("rspauth_sent")) else None
+            self._reply(conn, rec, scope, b"OK", (), code, text)
         else:
             self._reply(conn, rec, scope, b"NO", (), None, text)
